@@ -357,7 +357,12 @@ func (g *Gen) checkFunction(name string, p *PropConfig, bl *Baseline, tier strin
 			t := 3 * time.Second
 			r := run("z3-new", f, t)
 			if r.Answer != "unsat" && r.Answer != "sat" && tier == "thorough" {
-				r2, _ := decide(f, timeout, false)
+				// deeper attempt; obligations already known never to discharge get a shorter one
+				t2 := timeout
+				if bl.NotClaimed[o.ID] {
+					t2 = 20 * time.Second
+				}
+				r2, _ := decide(f, t2, false)
 				r = r2
 			}
 			or := mk(o)
